@@ -1,5 +1,6 @@
 import Reduino.Driver.Util
 import Reduino.Fw.Buzzer
+import Reduino.Fw.Inputs
 /- Line protocol for the firmware-side models (tie S_c).  Floats are C `float` (Float32), `g<8 hex>`. -/
 namespace Reduino.Driver
 open Reduino Reduino.Fw
@@ -41,9 +42,36 @@ def runBuzzer (ctor : List String) (ops : List String) : String :=
     | _, _ => "bad-op"
   | _ => "bad-op"
 
+def showUEv : UEv → String
+  | .delay ms => s!"delay {ms}"
+  | .pulse t => s!"pulse {t}"
+  | .echo d => s!"echo {d}"
+  | .stamp t => s!"stamp {t}"
+
+def nats (s : String) : List Nat := (words s).filterMap String.toNat?
+
+/-- `fwultra|echoes|drifts|call;sleep 30;call…` -/
+def runUltra (echoes drifts : List Nat) (prog : List String) : String :=
+  let rec go (u : Ultra Float32) (now : Nat) (es ds : List Nat) : List String → List String → List String
+    | [], acc => acc.reverse
+    | o :: rest, acc =>
+      match words o with
+      | ["call"] =>
+        let r := Ultra.measure u now es ds
+        go r.st r.now r.echoes r.drifts rest (s!"{",".intercalate (r.evs.map showUEv)} result={showF32 r.result}" :: acc)
+      | ["sleep", n] => go u (now + n.toNat!) es ds rest acc
+      | _ => ("bad-op" :: acc).reverse
+  "|".intercalate (go Ultra.init 0 echoes drifts prog [])
+
+def runButton (s0 : String) (sig : List Bool) : String :=
+  let b : Button := if s0 == "-" then {} else Button.setupSample (s0 == "1")
+  " ".intercalate ((b.passes sig).map fun p => s!"c{if p.1 then 1 else 0}v{if p.2 then 1 else 0}")
+
 def handleFw (fields : List String) : Option String :=
   match fields with
   | "fwbuzzer" :: ctor :: ops => some (runBuzzer (words ctor) ops)
+  | ["fwultra", es, ds, prog] => some (runUltra (nats es) (nats ds) (prog.splitOn ";"))
+  | ["fwbutton", s0, sig] => some (runButton s0 ((words sig).map (· == "1")))
   | _ => none
 
 end Reduino.Driver
